@@ -18,7 +18,7 @@ collect() { # name patch prop
 for d in seeded/S*/; do
   n=$(basename $d); prop=$(python3 -c "import json;print(json.load(open('$d/meta.json'))['breaks_property'])")
   # use the property that is known to catch it in E1
-  case $n in S15*) prop=C02;; S20*) continue;; esac
+  case $n in S15*) prop=C02;; S20*) continue;; S88*) continue;; esac  # S88: a 26 MB case (65537 join inputs); the huge shape generates that population in every run of C07
   collect "$n" "$d/patch.diff" "$prop"
 done
 while read name props; do
